@@ -184,14 +184,6 @@ def init : St := some {}
 /-- Inputs for which the Go loops do not terminate or unsigned arithmetic wraps: outside the model. -/
 def outOfModel (s : Sys) (d : Dir) : Frame → Bool
   | .data .. | .headers .. | .pushPromise .. | .continuation .. => (s.relay d).maxFrame < 5
-  | .settings kvs =>
-    -- every INITIAL_WINDOW_SIZE value triggers its own pass over the Go map, but the harness reports
-    -- one observed order per step: only frames in which at most one value raises the window (only
-    -- that pass can emit anything) are predicted
-    let r := s.relay d.peer
-    let up := (kvs.filter fun kv => kv.1 = 4).foldl
-      (fun (acc : Nat × Nat) kv => (kv.2, if kv.2 > acc.1 then acc.2 + 1 else acc.2)) (r.initWin, 0)
-    up.2 > 1
   | _ => false
 
 /-- Stream whose header block this frame completes / leaves unfinished. -/
